@@ -100,6 +100,7 @@ type trans struct {
 	bodies   map[string]string
 	pre      []string
 	tmpN     int
+	nilable  map[string]bool   // interface types whose values may be nil in the translated code (they become `Option`s)
 	foreign  string            // name of the imported package of this repository whose types are used unqualified ("saml" in samlsp)
 	externs  map[string]bool   // functions kept as parameters (fields of Env)
 	extSigs  map[string]string // Env field -> Lean type
@@ -116,6 +117,7 @@ type funcCtx struct {
 	mutable map[string]bool
 	resultIsSlice []bool
 	trace   bool
+	traceResult bool // the traced handler also returns a value
 	writers map[string]bool // parameters of type http.ResponseWriter
 	freshSl map[string]bool // locals made by `make` here and never aliased: element writes are value updates
 	results []ast.Expr
@@ -159,6 +161,10 @@ func (t *trans) leanType(e ast.Expr) string {
 		}
 		if _, ok := t.ifaces[x.Name]; ok {
 			t.touchStruct(x.Name)
+			if t.nilable[x.Name] {
+				// an interface used as a value that may be nil (a session or nothing)
+				return "(Option " + x.Name + ")"
+			}
 			return x.Name
 		}
 		if u, ok := t.named[x.Name]; ok {
@@ -431,6 +437,10 @@ func (t *trans) expr(e ast.Expr) string {
 		if id, ok := x.Type.(*ast.Ident); ok && isErrorTypeName(id.Name) {
 			return "(some " + leanStr(id.Name) + ")"
 		}
+		// the zero value of a struct: `T{}`
+		if len(x.Elts) == 0 {
+			return "(default : " + t.leanType(x.Type) + ")"
+		}
 	case *ast.CallExpr:
 		return t.call(x)
 	}
@@ -562,6 +572,9 @@ func (t *trans) effectCall(c *ast.CallExpr) (handled bool, value string) {
 	}
 	var evArgs []string
 	for i, a := range c.Args {
+		if name == "http.Error" {
+			break
+		}
 		if id, ok := a.(*ast.Ident); ok && t.cur.writers[id.Name] {
 			continue
 		}
@@ -582,9 +595,27 @@ func (t *trans) effectCall(c *ast.CallExpr) (handled bool, value string) {
 			evArgs = append(evArgs, "(errStr "+t.expr(a)+")")
 		}
 	}
+	if name == "http.Error" && len(c.Args) == 3 {
+		evArgs = []string{leanStr(strings.TrimPrefix(t.src(c.Args[2]), "http."))}
+	}
 	t.pre = append(t.pre, "trace' := trace' ++ [⟨"+leanStr(name)+", ["+strings.Join(evArgs, ", ")+"]⟩]")
-	if name == "http.Redirect" {
+	if name == "http.Redirect" || name == "http.Error" {
 		return true, "()"
+	}
+	// a method of this package that is not translated (it renders a page): the event is all that is kept of it
+	if sel, ok := c.Fun.(*ast.SelectorExpr); ok {
+		if obj, ok := t.info.Uses[sel.Sel]; ok {
+			if fn, ok := obj.(*types.Func); ok {
+				if sig, ok := fn.Type().(*types.Signature); ok && sig.Recv() != nil {
+					rn, _ := namedOf(sig.Recv().Type())
+					_, isIface := t.ifaces[rn]
+					_, isSpec := t.specs[sel.Sel.Name]
+					if !isIface && !isSpec && t.funcs[rn+"."+sel.Sel.Name] != nil && sig.Results().Len() == 0 {
+						return true, "()"
+					}
+				}
+			}
+		}
 	}
 	return false, ""
 }
@@ -648,9 +679,24 @@ func (t *trans) call(c *ast.CallExpr) string {
 				s, _ := strconv.Unquote(bl.Value)
 				return "(some " + leanStr(s) + ")"
 			}
-		case "time.Now":
+		case "time.Now", "saml.TimeNow":
 			t.useNow = true
 			return "env.timeNow"
+		case "fmt.Sprintf":
+			// a literal format whose verbs are all %s, with string arguments: the concatenation
+			if tv, ok := t.info.Types[c.Args[0]]; ok && tv.Value != nil && tv.Value.Kind() == constant.String {
+				parts := strings.Split(constant.StringVal(tv.Value), "%s")
+				if len(parts) == len(c.Args) && !strings.Contains(strings.Join(parts, ""), "%") {
+					out := leanStr(parts[0])
+					for i, a := range c.Args[1:] {
+						out += " ++ " + t.expr(a)
+						if parts[i+1] != "" {
+							out += " ++ " + leanStr(parts[i+1])
+						}
+					}
+					return "(" + out + ")"
+				}
+			}
 		case "strconv.Itoa":
 			return "(itoa " + t.expr(c.Args[0]) + ")"
 		case "strings.HasPrefix":
@@ -662,6 +708,42 @@ func (t *trans) call(c *ast.CallExpr) string {
 			if inner, ok := f.X.(*ast.SelectorExpr); ok && inner.Sel.Name == "Form" {
 				t.addExtern("formGet", "HTTPRequest → String → String")
 				return "(env.formGet " + t.derefd(inner.X) + " " + t.expr(c.Args[0]) + ")"
+			}
+		}
+		if f.Sel.Name == "Get" && len(c.Args) == 2 {
+			// Store.Get(key, &value) / Store.Get(key, pointer): the store fills the value; the Env function returns it with the error
+			if inner, ok := f.X.(*ast.SelectorExpr); ok && inner.Sel.Name == "Store" {
+				var id *ast.Ident
+				isAddr := false
+				switch a := c.Args[1].(type) {
+				case *ast.Ident:
+					id = a
+				case *ast.UnaryExpr:
+					if a.Op == token.AND {
+						id, _ = a.X.(*ast.Ident)
+						isAddr = true
+					}
+				}
+				if id != nil {
+					ty := t.info.Types[c.Args[1]].Type
+					if p, ok := ty.(*types.Pointer); ok {
+						ty = p.Elem()
+					}
+					tn, _ := namedOf(ty)
+					if tn != "" {
+						field := "storeGet_" + tn
+						t.addExtern(field, "String → Outcome ("+t.leanType(ast.NewIdent(tn))+" × GoError)")
+						t.tmpN++
+						tmp := fmt.Sprintf("call%d'", t.tmpN)
+						val := tmp + ".1"
+						if !isAddr {
+							val = "(some " + tmp + ".1)"
+						}
+						t.pre = append(t.pre, "let "+tmp+" := (← env."+field+" "+t.expr(c.Args[0])+")", t.varName(id.Name)+" := "+val)
+						t.cur.mutable[id.Name] = true
+						return tmp + ".2"
+					}
+				}
 			}
 		}
 		if f.Sel.Name == "Cookies" && len(c.Args) == 0 {
@@ -900,8 +982,16 @@ func (t *trans) varName(name string) string {
 }
 
 func (t *trans) retExpr(results []ast.Expr) string {
-	if t.cur.trace {
+	if t.cur.trace && !t.cur.traceResult {
 		return "trace'"
+	}
+	if t.cur.trace {
+		// a handler that also returns a value: (value, trace)
+		if len(results) == 1 {
+			v := t.expr(results[0])
+			return "(" + v + ", trace')"
+		}
+		return "(default, trace')"
 	}
 	var v string
 	switch len(results) {
@@ -1314,6 +1404,16 @@ func mutatedVars(body *ast.BlockStmt) map[string]bool {
 				}
 			}
 		}
+		// `x.Store.Get(key, p)` writes through p
+		if c, ok := n.(*ast.CallExpr); ok {
+			if sel, ok := c.Fun.(*ast.SelectorExpr); ok && sel.Sel.Name == "Get" && len(c.Args) == 2 {
+				if inner, ok := sel.X.(*ast.SelectorExpr); ok && inner.Sel.Name == "Store" {
+					if id, ok := c.Args[1].(*ast.Ident); ok {
+						m[id.Name] = true
+					}
+				}
+			}
+		}
 		// a variable whose address is handed to a call may be written by it (`unmarshalElement(el, &v)`)
 		if c, ok := n.(*ast.CallExpr); ok {
 			for _, a := range c.Args {
@@ -1498,7 +1598,12 @@ func (t *trans) function(name string) {
 		res = t.resultType(fd.Type.Results)
 	}
 	if sp.trace {
-		res = "(List Event)"
+		if fd.Type.Results != nil && len(fd.Type.Results.List) > 0 {
+			ctx.traceResult = true
+			res = "(" + t.resultType(fd.Type.Results) + " × (List Event))"
+		} else {
+			res = "(List Event)"
+		}
 	}
 	if sp.mutRecv {
 		rt := fd.Recv.List[0].Type
@@ -1692,11 +1797,21 @@ func translate(repo string, p *pkgFiles, outPath string) {
 		{fn: "ServeACS", recv: "Middleware", trace: true},
 		{fn: "GetTrackedRequests", recv: "CookieRequestTracker"},
 		{fn: "GetTrackedRequest", recv: "CookieRequestTracker"},
+		{fn: "GetSession", recv: "CookieSessionProvider", as: "cookieGetSession"},
 	}
 	spOut := ""
 	if outPath != "" {
 		spOut = filepath.Join(filepath.Dir(outPath), "TransSamlsp.lean")
 	}
+	idpOut := ""
+	if outPath != "" {
+		idpOut = filepath.Join(filepath.Dir(outPath), "TransSamlidp.lean")
+	}
+	idpSpecs := []transSpec{
+		{fn: "GetSession", recv: "Server", as: "cookieSession", trace: true, anchor: "if sessionCookie, err := r.Cookie(\"session\"); err == nil {"},
+	}
+	translatePkg(parseDir(filepath.Join(repo, "samlidp")), idpOut, "samlidp", "SamlVerif.TransI", idpSpecs, map[string]bool{},
+		&foreignPkg{name: "saml", path: "github.com/crewjam/saml", pkg: rootPkg, p: p})
 	translatePkg(parseDir(filepath.Join(repo, "samlsp")), spOut, "samlsp", "SamlVerif.TransM", spSpecs, map[string]bool{"ParseResponse": true},
 		&foreignPkg{name: "saml", path: "github.com/crewjam/saml", pkg: rootPkg, p: p})
 }
@@ -1715,7 +1830,10 @@ func (r *Request) ParseForm() error
 type ResponseWriter interface{ WriteHeader(int) }
 var ErrNoCookie error
 const StatusFound = 302
+const StatusInternalServerError = 500
 func Redirect(w ResponseWriter, r *Request, url string, code int)
+func Error(w ResponseWriter, error string, code int)
+func StatusText(code int) string
 `
 	fset := token.NewFileSet()
 	f, err := parser.ParseFile(fset, "http.go", src, 0)
@@ -1735,7 +1853,7 @@ type foreignPkg struct {
 }
 
 func translatePkg(p *pkgFiles, outPath string, pkgName string, ns string, specs []transSpec, externs map[string]bool, dep *foreignPkg) *types.Package {
-	t := &trans{p: p, structs: map[string]*ast.StructType{}, ifaces: map[string]*ast.InterfaceType{}, named: map[string]ast.Expr{},
+	t := &trans{p: p, nilable: map[string]bool{"Session": pkgName == "samlsp"}, structs: map[string]*ast.StructType{}, ifaces: map[string]*ast.InterfaceType{}, named: map[string]ast.Expr{},
 		funcs: map[string]*ast.FuncDecl{}, specs: map[string]transSpec{}, usedF: map[string]map[string]bool{}, usedM: map[string]map[string]bool{},
 		envVars: map[string]string{}, done: map[string]bool{}, bodies: map[string]string{},
 		externs: externs, extSigs: map[string]string{}}
@@ -1793,6 +1911,13 @@ func translatePkg(p *pkgFiles, outPath string, pkgName string, ns string, specs 
 					}
 					for _, sp := range g.Specs {
 						ts := sp.(*ast.TypeSpec)
+						// a name this package declares itself (in any kind) hides the imported package's
+						_, o1 := t.structs[ts.Name.Name]
+						_, o2 := t.ifaces[ts.Name.Name]
+						_, o3 := t.named[ts.Name.Name]
+						if o1 || o2 || o3 {
+							continue
+						}
 						switch u := ts.Type.(type) {
 						case *ast.StructType:
 							if _, own := t.structs[ts.Name.Name]; !own {
